@@ -158,6 +158,14 @@ impl C12 {
                 }
             }
         }
+        // second order: what the library's lax -> strict conversion returns must be a fit argument for a strict functor
+        {
+            let lx2 = lx.clone();
+            if let Some(img) = lib(ctx, "Identity::map_arrow∘to_strict", class, &input, move || Identity.map_arrow(&lx2.to_strict())) {
+                ctx.count("law:identity-functor-after-to_strict");
+                expect_diagram(ctx, "Identity::map_arrow∘to_strict", "isomorphic-to-argument", class, &img, p, &input);
+            }
+        }
         // identity functors
         if let Some(img) = lib(ctx, "Identity::map_arrow", class, &input, || Identity.map_arrow(&lf)) {
             ctx.count("law:identity-functor");
@@ -276,6 +284,7 @@ impl Monitor for C12 {
             ("law:preserves-identities", 50),
             ("law:preserves-symmetry", 50),
             ("law:identity-functor", 100),
+            ("law:identity-functor-after-to_strict", 100),
             ("api:lax::Functor::map_arrow(dyn)", 100),
         ]
     }
